@@ -245,6 +245,9 @@ class skyline_lu {
          * end
          */
         void factorize() {
+            // Nothing to factorize for an empty system; D[0] does not exist.
+            if (n == 0) return;
+
             precondition(!math::is_zero(D[0]), "Zero diagonal in skyline_lu");
             D[0] = math::inverse(D[0]);
 
